@@ -90,7 +90,10 @@ class SArray:
         k = kind_of_dtype(dt) if not isinstance(dt, str) or dt not in KINDS else dt
         if k == s.kind: return s.copy() if copy else s
         def conv(x):
-            if isinstance(x, Sym): return x.cast(k)
+            if isinstance(x, Sym):
+                if k == 'i' and x.kind == 'f':      # numpy: float -> int truncates toward zero
+                    return SInt(z3.If(x.t >= 0, z3.ToInt(x.t), -z3.ToInt(-x.t)))
+                return x.cast(k)
             return NPDT[k].type(x).item()
         return SArray(_vec(conv)(s.a), k)
     def reshape(s, *shape): return SArray(s.a.reshape(*shape), s.kind)
@@ -685,6 +688,9 @@ def _sort(a, axis=-1, **kw):
     if axis is None: a = a.ravel(); axis = 0
     if all(is_concrete(x) for x in a.a.flat):
         return SArray.wrap(numpy.sort(a.a.astype(NPDT[a.kind]), axis=axis))
+    if a.shape[axis] == 2:      # two entries along the sorted axis: (min, max), no forking
+        lo, hi = numpy.take(a, 0, axis=axis), numpy.take(a, 1, axis=axis)
+        return numpy.stack([numpy.minimum(lo, hi), numpy.maximum(lo, hi)], axis=axis)
     if a.ndim != 1: raise Unsupported('sort nd symbolic')
     return a[_argsort(a)]
 @handles(numpy.bincount)
